@@ -89,7 +89,8 @@ class Chain(plumpy.WorkChain):
 def canon_bundle(bundle: Any) -> Any:
     def c(v: Any) -> Any:
         if isinstance(v, dict):
-            return {k: c(x) for k, x in v.items()}
+            # (whether and where a snapshot records the object loader in force is the persister's business)
+            return {k: c(x) for k, x in v.items() if k != persistence.META__OBJECT_LOADER and not (k == persistence.META__USER and not c(x))}
         if isinstance(v, (list, tuple)):
             return [c(x) for x in v]
         if isinstance(v, BaseException):
